@@ -57,13 +57,43 @@ def run(ctx):
         if total <= 3000:
             members.append(([1] * total, 1, 0))
             members.append(([1] * total, 2, 10))
-        groups.append((gi, o, inp, members))
+        groups.append((gi, o, inp, members, None))
+    # fixed call sequences WITH Flush calls (an explicit block boundary): identical for every concurrency level and schedule
+    for gi in range(len(groups), len(groups) + (8 if q else 80)):
+        o = {"code": 4, "bcs": gi % 2 == 0, "ccs": True, "level": 0, "legacy": False, "handler": False}
+        total = rnd.choice([B + 100, 2 * B + 7, 3 * B])
+        inp = {"family": rnd.choice(["text", "blockmix"]), "len": total, "seed": gi, "p1": B}
+        seq, left = [], total
+        while left > 0:
+            n = min(left, rnd.choice([100, B // 3, B - 1, B + 1]))
+            seq.append(("write", n))
+            left -= n
+            if rnd.random() < 0.5:
+                seq.append(("flush", 0))
+        members = [(seq, c, p) for c, p in ((1, 0), (2, 0), (2, 40), (4, 10), (4, 80), (16, 40), (16, 0))]
+        groups.append((gi, o, inp, members, "flush"))
+    # a Writer that was used and Reset (with and without pending bytes) before: its next frame equals a fresh Writer's
+    for gi in range(len(groups), len(groups) + (8 if q else 80)):
+        o = {"code": 4, "bcs": False, "ccs": True, "level": 0, "legacy": False, "handler": False}
+        total = rnd.choice([500, B + 100, 2 * B + 7])
+        pre = rnd.choice([1, 100, B - 1, B + 5])
+        inp = {"family": "text", "len": pre + total, "seed": gi, "p1": B}
+        canon = [("write", pre), ("close", 0), ("reset", 0), ("write", total)]
+        members = [(canon, 1, 0)]
+        for conc in (1, 4):
+            members.append(([("write", pre), ("reset", 0), ("write", total)], conc, 0))                  # Reset with pending bytes
+            members.append(([("write", pre), ("flush", 0), ("reset", 0), ("write", total)], conc, 10))
+            members.append(([("write", pre // 2 + 1), ("close", 0), ("reset", 0), ("write", pre - pre // 2 - 1), ("close", 0), ("reset", 0), ("write", total)], conc, 0))
+        groups.append((gi, o, inp, members, "reuse"))
     cases = []
-    for gi, o, inp, members in groups:
+    for gi, o, inp, members, kind in groups:
         for sizes, conc, perturb in members:
-            cases.append({"id": len(cases) + 1, "kind": "writer", "input": inp, "opts": dict(o, conc=conc),
-                          "calls": [{"op": "write", "n": n} for n in sizes] + [{"op": "close"}], "seed": ctx.seed * 100 + len(cases),
-                          "perturb": perturb, "poison": True, "group": gi})
+            if kind is None:
+                calls = [{"op": "write", "n": n} for n in sizes] + [{"op": "close"}]
+            else:
+                calls = [{"op": op, "n": n} if op == "write" else {"op": op} for op, n in sizes] + [{"op": "close"}]
+            cases.append({"id": len(cases) + 1, "kind": "writer", "input": inp, "opts": dict(o, conc=conc), "calls": calls,
+                          "seed": ctx.seed * 100 + len(cases), "perturb": perturb, "poison": True, "group": gi, "gkind": kind})
     recs, faults = fl.shard_run(b, "pipe-run", cases, d, "det", extra=("--watchdog", "120s"))
     if faults:
         raise vlib.MachineryFault("pipe-run failed: %s" % faults[0]["stderr"][-800:])
@@ -78,8 +108,12 @@ def run(ctx):
             if c["group"] != cur:
                 cur = c["group"]
                 f.write(json.dumps({"ev": "newcase", "case": "g%d" % cur}) + "\n")
-            f.write(json.dumps({"ev": "frame", "case": "g%d" % cur, "id": c["id"], "key": "g%d" % cur, "outid": r["sinkSha"],
-                                "ok": r["status"] == "ok" and r["same"] and not r["hung"]}, separators=(",", ":")) + "\n")
+            if c["gkind"] == "reuse":       # compare the frame of the Writer's last life only
+                outid, ok = r.get("lastSegSha", "none"), bool(r.get("lastSegOK")) and not r["hung"]
+            else:
+                outid, ok = r["sinkSha"], r["status"] == "ok" and r["same"] and not r["hung"]
+            f.write(json.dumps({"ev": "frame", "case": "g%d" % cur, "id": c["id"], "key": "g%d" % cur, "outid": outid, "ok": ok},
+                               separators=(",", ":")) + "\n")
     ctx.sample({"frame_group_member": {k: v for k, v in cases[5].items() if k != "input"}, "sinkSha": recs[cases[5]["id"]]["sinkSha"]})
     acc, rej = vlib.validate_trace(ctx, "BlockAPI_Trace", tp, cfg="BlockAPI_Trace_C14", timeout=1800, max_reject=5)
     ctx.extra["frame_groups"] = len(groups)
@@ -87,14 +121,16 @@ def run(ctx):
         rec = json.loads(rj["line"])
         c = by_id[rec["id"]]
         canon = next(x for x in cases if x["group"] == c["group"])
-        key = "C14:frame:conc=%s:%s:perturb=%s:ok=%s" % ("1" if c["opts"]["conc"] == 1 else ">1",
-                                                        "one-write" if len(c["calls"]) == 2 else "partitioned", "yes" if c["perturb"] else "no", rec["ok"])
+        key = "C14:frame:%s:conc=%s:%s:perturb=%s:ok=%s" % (c["gkind"] or "partition", "1" if c["opts"]["conc"] == 1 else ">1",
+                                                           "one-write" if len(c["calls"]) == 2 else "several-calls", "yes" if c["perturb"] else "no", rec["ok"])
         if any(v[0] == key for v in ctx.violations):
             continue
         differs = False
         for attempt in range(10 if c["opts"]["conc"] != 1 else 1):
             rr, _ = fl.shard_run(b, "pipe-run", [canon, c], d, "again", nshards=1, extra=("--watchdog", "120s"))
-            if rr[canon["id"]]["sinkSha"] != rr[c["id"]]["sinkSha"] or rr[c["id"]]["status"] != "ok":
+            fld = "lastSegSha" if c["gkind"] == "reuse" else "sinkSha"
+            bad = (not rr[c["id"]].get("lastSegOK")) if c["gkind"] == "reuse" else rr[c["id"]]["status"] != "ok"
+            if rr[canon["id"]].get(fld) != rr[c["id"]].get(fld) or bad:
                 differs = True
                 break
         if not differs:
